@@ -197,6 +197,57 @@ def step_probe(pid, tier, seed):
     return "vprobe", rep
 
 
+def step_names(pid, tier, seed):
+    """C19 through rustc: enums NAMED like an item the generated code declares or imports (real derive,
+    both code generators). The derive accepts them, so the implementation has to compile."""
+    import re
+    d = os.path.join(H.ENGINE, "vnames")
+    H.sh([sys.executable, os.path.join(H.ROOT, "tools", "gen_vnames.py")], timeout=60)
+    src = open(os.path.join(d, "src", "lib.rs")).read().split("\n")
+    names = [m.group(1) for m in (re.match(r"// NAME: (\S+)", l) for l in src) if m]
+
+    def name_at(line):
+        for i in range(min(line, len(src)) - 1, -1, -1):
+            m = re.match(r"// NAME: (\S+)", src[i])
+            if m:
+                return m.group(1)
+        return None
+    rep = {"engine": "vnames (rustc, real proc-macro)", "counts": {}, "observed": {}, "violations": [], "samples": [], "notes": [], "bounds": {}, "exhaustive": True}
+    for gen, feats in (("tc", []), ("sm", ["--features", "sm"])):
+        p = H.sh(["cargo", "build", "--offline", "--message-format=json", "--target-dir", os.path.join("target", gen)] + feats, cwd=d, timeout=3600, check=False)
+        bad, ndiag = {}, 0
+        for line in (p.stdout or "").splitlines():
+            if not line.startswith("{"):
+                continue
+            try:
+                m = json.loads(line)
+            except ValueError:
+                continue
+            if m.get("reason") != "compiler-message" or m["message"].get("level") != "error":
+                continue
+            ndiag += 1
+            sp = [x for x in m["message"].get("spans") or [] if x["file_name"].endswith("lib.rs")]
+            n = name_at(sp[0]["line_start"]) if sp else None
+            if n is None:
+                if m["message"]["message"].startswith("aborting due to") or m["message"]["message"].startswith("could not compile"):
+                    continue
+                raise H.MachineryError("vnames: rustc error that cannot be attributed to an enum: " + m["message"]["message"][:300])
+            bad.setdefault(n, m["message"]["message"][:200])
+        if p.returncode != 0 and not bad:
+            raise H.MachineryError("vnames: build failed without an attributable error: " + (p.stdout or "")[-600:])
+        for n, msg in sorted(bad.items()):
+            rep["violations"].append({"key": f"NAME-CLASH/{gen}/{n}", "tag": "NAME-CLASH", "case": f"enum {n} ({'state-machine' if gen == 'sm' else 'tail-call'} generator)",
+                                      "detail": f"the derive accepts an enum called {n} but the generated implementation does not compile (the name collides with an item of the generated code): {msg}",
+                                      "replay": {"kind": "names", "tag": "NAME-CLASH", "generator": gen, "name": n}})
+        rep["counts"]["evaluations"] = rep["counts"].get("evaluations", 0) + len(names)
+        rep["counts"]["distinct_nontrivial"] = rep["counts"].get("distinct_nontrivial", 0) + len(names)
+        rep["counts"]["programs"] = rep["counts"].get("programs", 0) + len(names)
+        rep["observed"][f"names_that_compile_{gen}"] = len(names) - len(bad)
+    rep["bounds"]["rule"] = f"{len(names)} enum names taken from the generated code (declared helper items, imported aliases, prelude names, local variable names) x both code generators, compiled by rustc through the real derive; every one must compile"
+    rep["samples"].append({"names": names})
+    return "vnames", rep
+
+
 def step_cli16(pid, tier, seed):
     H.build_tools()
     cli = H.ensure_cli()
@@ -282,15 +333,15 @@ prop("C01", level="model_checking",
      technique="explicit-state product exploration (captured logos Graph x independent reference automaton), all inputs of every length per definition, over an enumerated definition family",
      text="Exhaustive BFS of the synchronous product of the real pipeline's final Graph with an independently built reference automaton decides longest-match/priority outcome equality for every input of every length, for every definition of a systematically enumerated family; tags OUTCOME, EARLY-STOP.",
      note="Trusted: regex-syntax parser/translator, rustc, harness code. Bounds: definition family F(k)+curated; inputs unbounded at the graph level.",
-     design_ref="5 C01, 3", steps=[step_selfcheck, step_layer1, step_code, step_layer2(["u-dev"], ["u-dev", "u-rel", "f-dev", "f-rel"]), step_bind], assumptions=L1_ASSUME + CODE_ASSUME)
+     design_ref="5 C01, 3", steps=[step_selfcheck, step_layer1, step_code, step_layer2(["u-dev"], ["u-dev", "u-rel", "f-dev", "f-rel"]), step_bind, step_vderive("sweep", ["tc-u-rel", "sm-u-dev", "tc-f-dev"], ["tc-u-rel", "sm-u-rel", "tc-f-rel", "sm-f-rel", "tc-u-dev", "sm-u-dev"])], assumptions=L1_ASSUME + CODE_ASSUME)
 prop("C02", level="model_checking",
      technique="explicit-state product exploration (Graph x reference automaton): error fatal offset, stop-consuming point",
      text="The same product exploration decides, for every input of every length, that a match attempt stops exactly at the first symbol after which no pattern can match any extension (tags ERRSPAN, EARLY-STOP, OVERREAD).",
-     note="Same trusted base as C01. The error VALUE (Default / error callback / pattern callback) is checked through the real derive (vderive c13).", design_ref="5 C02, 3", steps=[step_selfcheck, step_layer1, step_code, step_layer2(["u-dev"], ["u-dev", "u-rel", "f-dev", "f-rel"]), step_vderive("c13", ["tc-u-dev"], ["tc-u-dev", "sm-u-dev", "tc-f-rel"])], assumptions=L1_ASSUME + CODE_ASSUME)
+     note="Same trusted base as C01. The error VALUE (Default / error callback / pattern callback) is checked through the real derive (vderive c13).", design_ref="5 C02, 3", steps=[step_selfcheck, step_layer1, step_code, step_layer2(["u-dev"], ["u-dev", "u-rel", "f-dev", "f-rel"]), step_vderive("c13", ["tc-u-dev"], ["tc-u-dev", "sm-u-dev", "tc-f-rel"]), step_vderive("sweep", ["tc-u-rel", "sm-u-dev", "tc-f-dev"], ["tc-u-rel", "sm-u-rel", "tc-f-rel", "sm-f-rel", "tc-u-dev", "sm-u-dev"])], assumptions=L1_ASSUME + CODE_ASSUME)
 prop("C03", level="model_checking",
      technique="structural invariants on every captured Graph + nullable-pattern rejection over the enumerated family",
      text="Every captured graph is checked for the invariants that make any walk terminate and tile (root records nothing, EOI edges lead to terminal late-accept states, every edge consumes one byte), and every enumerated definition with a pattern that can match the empty string (decided on the reference automaton) must be rejected.",
-     note="Same trusted base as C01.", design_ref="5 C03", steps=[step_selfcheck, step_layer1, step_code, step_layer2(["u-dev"], ["u-dev", "u-rel", "f-dev", "f-rel"])], assumptions=L1_ASSUME + CODE_ASSUME)
+     note="Same trusted base as C01.", design_ref="5 C03", steps=[step_selfcheck, step_layer1, step_code, step_layer2(["u-dev"], ["u-dev", "u-rel", "f-dev", "f-rel"]), step_vderive("sweep", ["tc-u-rel", "sm-u-dev", "tc-f-dev"], ["tc-u-rel", "sm-u-rel", "tc-f-rel", "sm-f-rel", "tc-u-dev", "sm-u-dev"])], assumptions=L1_ASSUME + CODE_ASSUME)
 prop("C07", level="model_checking",
      technique="explicit-state product exploration: at every reachable product state the partial lexer's commit/ask-for-more decision is compared with reference determinedness",
      text="For every prefix of every input (every reachable product state at a legal buffer end) the real return-None condition must coincide with 'some continuation changes the outcome' computed on the reference automaton (tags PARTIAL-UNSOUND, PARTIAL-LATE).",
@@ -324,7 +375,7 @@ prop("C18", level="exploration", engine="vgraph",
 prop("C19", level="exploration", engine="vgraph",
      technique="exhaustive enumeration of an attribute grammar (all single items and all pairs) through catch_unwind(generate) and (single items + same-key pairs) through rustc with the real proc-macro; must-reject predicates from the reference",
      text="Every single item and every pair of items of the attribute grammar is run through the library entry point: no panic, and every definition carrying a must-reject predicate (nullable, start look-behind, unsupported feature, greedy dot anywhere, undefined subpattern, bad variant shape) yields compile_error!.",
-     note="Two execution paths: the library entry point under catch_unwind, and rustc on the stable toolchain with the real proc-macro (span operations differ there).", design_ref="5 C19", steps=[step_vgraph("c19"), step_vgraph("c13cb"), step_vgraph("c19big"), step_layer1, step_probe], assumptions=["the derive cannot type-check user-supplied fragments; rustc errors inside those are not counted"])
+     note="Two execution paths: the library entry point under catch_unwind, and rustc on the stable toolchain with the real proc-macro (span operations differ there).", design_ref="5 C19", steps=[step_vgraph("c19"), step_vgraph("c13cb"), step_vgraph("c19big"), step_layer1, step_probe, step_names], assumptions=["the derive cannot type-check user-supplied fragments; rustc errors inside those are not counted"])
 
 L2_ASSUME = L1_ASSUME + ["Layer 2 compiles the library expansion (logos_codegen::generate) of a compiled sub-corpus; the proc-macro wrapper is a one-line call of the same function (bound by vderive)",
                          "inputs at Layer 2 are bounded: all strings up to L symbols over a representative alphabet + transition cover x 256 + loop inputs"]
@@ -332,7 +383,7 @@ prop("C04", level="model_checking", engine="vgraph+vrt",
      technique="product of each accepted str-mode pattern's reference automaton with a UTF-8 validity DFA (acceptance side), plus numeric boundary checks of every span observed on compiled lexers over bounded-exhaustive valid UTF-8 inputs",
      text="(a) no accepted str-mode pattern or subpattern has a reachable accepting configuration outside 'between characters' (all strings); (b) every span boundary observed through span()/slice()/remainder() on the compiled lexers is a char boundary, checked numerically before slicing, for all enumerated inputs with 1-4 byte characters.",
      note="Same trusted base as C01; std's is_char_boundary is the boundary oracle.", design_ref="5 C04",
-     steps=[step_selfcheck, step_layer1, step_code, step_layer2(["u-dev", "f-dev"], ["u-dev", "u-rel", "f-dev", "f-rel"])], assumptions=L2_ASSUME + CODE_ASSUME)
+     steps=[step_selfcheck, step_layer1, step_vgraph("c11"), step_code, step_layer2(["u-dev", "f-dev"], ["u-dev", "u-rel", "f-dev", "f-rel"]), step_vderive("sweep", ["tc-u-rel", "sm-u-dev", "tc-f-dev"], ["tc-u-rel", "sm-u-rel", "tc-f-rel", "sm-f-rel", "tc-u-dev", "sm-u-dev"])], assumptions=L2_ASSUME + CODE_ASSUME)
 prop("C05", level="exploration", engine="vrt",
      technique="exhaustive enumeration of Source::read over every (len, offset, chunk size) incl. wrap-around offsets, and of lexing inputs of every length around the 8-byte batch in exactly sized heap allocations, under valgrind memcheck; default vs forbid_unsafe builds x dev/release compared through the common reference",
      text="Source::read returns Some(bytes) iff offset+N <= len in unbounded arithmetic for every enumerated case in all four builds; every compiled lexer run on exactly sized heap inputs is free of invalid reads under memcheck; unsafe and forbid_unsafe builds (dev and release) produce the reference's transcript with no panic.",
